@@ -5,6 +5,7 @@ set -u
 export GOFLAGS=-mod=mod GOPROXY=off GOSUMDB=off GOTOOLCHAIN=local
 bin=$(mktemp /tmp/kbcheck.XXXXXX); cp /verif/bin/kbcheck $bin; chmod +x $bin
 for df in "$@"; do
+  df=$(readlink -f "$df")
   d=$(mktemp -d /tmp/kbneg.XXXXXX)
   rsync -a --exclude .git /repo/ "$d/repo/"; mkdir -p "$d/verif"; cp /verif/known_findings.json "$d/verif/"
   if ! ( cd "$d/repo" && patch -p1 --no-backup-if-mismatch -s < $df ); then echo "$df PATCH-FAILED"; rm -rf "$d"; continue; fi
